@@ -67,7 +67,11 @@ def lowpass(c):
     cl = dict(zip(f.__code__.co_freevars, [x.cell_contents for x in f.__closure__]))
     pnc, use, proj, herr, sims = cl['precalc_cache'][tuple(nsub)]
     m = func([1.0], nseq, 10)
-    rec = {'out': fl(np.ma.getdata(out)), 'out_mask': [bool(t) for t in np.ma.getmaskarray(out).ravel()],
+    # plain projection with the code's own projection_matrix along every axis (masked corners count as 0)
+    pl = np.where(np.ma.getmaskarray(m), 0.0, np.ma.getdata(m))
+    for ax, (ns_, nb_, F_) in enumerate(zip(nseq, nsub, Fx if Fx is not None else [0] * d)):
+        pl = np.swapaxes(np.swapaxes(pl, ax, -1).dot(LP.projection_matrix(ns_, nb_, F_)), ax, -1)
+    rec = {'plainF': fl(pl), 'out': fl(np.ma.getdata(out)), 'out_mask': [bool(t) for t in np.ma.getmaskarray(out).ravel()],
            'shape': list(out.shape), 'model_mask': [bool(t) for t in np.ma.getmaskarray(m).ravel()],
            'model_total': float(m.sum()), 'out_total': float(np.ma.getdata(out).sum()),
            'pnc': fl(pnc), 'use': [bool(t) for t in np.asarray(use).ravel()],
